@@ -122,8 +122,14 @@ func (vc *VC) callValue(act *Act, st *State, common *ssa.CallCommon, fnVal Val, 
 	}
 	pre := st.clone()
 	res := vc.defaultCall(act, st, resT, name, true)
-	for _, ev := range vc.eng.eventsFor("callparam", strings.TrimPrefix(name, "param ")) {
-		vc.applyEvent(act, st, pre, ev, args, argTypes, res, resT, site)
+	if strings.HasPrefix(name, "param ") {
+		for _, ev := range vc.eng.eventsFor("callparam", strings.TrimPrefix(name, "param ")) {
+			vc.applyEvent(act, st, pre, ev, args, argTypes, res, resT, site)
+		}
+	} else {
+		for _, ev := range vc.eng.eventsFor("calldyn", strings.TrimPrefix(name, "dynamic ")) {
+			vc.applyEvent(act, st, pre, ev, args, argTypes, res, resT, site)
+		}
 	}
 	return res
 }
@@ -919,6 +925,13 @@ func (vc *VC) siteCheck(act *Act, st *State, shape string, site ssa.Instruction,
 		}
 		for _, l := range s.Lets {
 			env.vars[l.Name] = env.evalTV(l.Expr)
+		}
+		if len(s.Asserts) > 0 {
+			// vacuity guard: the matched instruction must be reachable under the assumptions made so far
+			ck := fmt.Sprintf("site#%s#%s#reachable", s.Name, vc.eng.shortName(act.fn))
+			cn := vc.counts[ck]
+			vc.counts[ck]++
+			vc.oblige(st, &Obligation{Name: fmt.Sprintf("%s#%d", ck, cn), Kind: "cover", Cover: true, Clause: "matched instruction is reachable", Src: vc.srcPos(site.Pos()), Tags: s.Tags, Func: vc.eng.shortName(vc.root)}, "true")
 		}
 		for n, a := range s.Asserts {
 			key := fmt.Sprintf("site#%s#%s#%s", s.Name, vc.eng.shortName(act.fn), clauseName(a, n))
